@@ -97,14 +97,100 @@ def gen_family(rng, max_layers=4):
     for _ in range(nlayers):
         fns = []
         for _ in range(rng.choice([0, 1, 1, 2, 2, 3, 4])):
-            fns.append(gen_overload(rng, fid[0], arity, kindmix, nk))
+            o = gen_overload(rng, fid[0], arity, kindmix, nk)
+            if rng.random() < 0.5:
+                pyify(rng, o)
+            fns.append(o)
             fid[0] += 1
         layers.append(dict(fns=fns, x=rng.random() < 0.2))
     return layers
 
 
 def is_hidden(p):
-    return p.get('ty') in ('Context', 'Engine', 'Receiver')
+    return p.get('ty') in ('Context', 'Engine', 'Receiver', 'YaqlInterface')
+
+
+def camel(name):
+    out, i = [], 0
+    while i < len(name):
+        if name[i] == '_' and i > 0 and i + 1 < len(name):
+            out.append(name[i + 1].upper())
+            i += 2
+        else:
+            out.append(name[i])
+            i += 1
+    return ''.join(out)
+
+
+def kwname(o, p):
+    """the keyword a caller uses for parameter p of overload o: the alias, else the Python name - translated by
+    the context's CamelCase convention when the definition is made with it"""
+    if 'alias' in p:
+        return p['alias']
+    if (o.get('py') or {}).get('via') in ('callable', 'fdconv'):
+        return camel(p['name'].rstrip('_'))
+    return p['name']
+
+
+STYLES = ['def', 'def', 'factory', 'factory', 'lambda', 'classfn']
+
+
+def pyify(rng, o, style=None, allow_callable=True):
+    """turn an overload spec into a randomly written Python callable: payload style, decorators in a shuffled
+    order, bare Python classes / undeclared types / `nullable=` next to the declared ones, parameters decorated by
+    index, hidden parameters recognised by their NAME, Python-style parameter names (`k_0`, `b_`) that the naming
+    convention translates, the name given by `name=`, by `@specs.name` or by the Python function name, and how the
+    definition gets into the context (prepared with / without the convention, or the callable itself)"""
+    py = dict(style=style or rng.choice(STYLES))
+    if rng.random() < 0.7:
+        py['dseed'] = rng.randrange(1 << 30)
+    r = rng.random()
+    py['via'] = 'callable' if (r < 0.45 and allow_callable) else 'fdconv' if r < 0.65 else 'fd'
+    r = rng.random()
+    py['nameby'] = 'arg' if r < 0.5 else 'deco' if r < 0.75 or py['style'] == 'lambda' else 'pyname'
+    if py['nameby'] == 'pyname':
+        py['underscores'] = rng.choice([0, 1, 1, 2])
+    if rng.random() < 0.2:
+        py['meta'] = rng.choice(['text', 'math', 7])
+    names = {p['name'] for p in o['params']}
+    for p in o['params']:
+        ts = p.get('ty')
+        if isinstance(ts, list) and ts[0] == 'py' and rng.random() < 0.5:
+            # the bare class: nullable as given, or left to the rule "nullable iff the default is None"
+            p['ty'] = ['cls', ts[1], rng.choice([None, None, ts[2], True, False])]
+        elif isinstance(ts, list) and ts[0] == 'py' and rng.random() < 0.12 and p['kind'] in ('pos', 'kwonly'):
+            del p['ty']                                     # undeclared: the type comes from the default
+            p['ty'] = None
+            if rng.random() < 0.4:
+                p['nullable'] = rng.random() < 0.5
+        elif isinstance(ts, str) and ts in ('String', 'Integer') and rng.random() < 0.2:
+            p['nullable'] = rng.random() < 0.5              # ignored next to a smart type
+        if ts in ('Context', 'Engine') and p['kind'] in ('pos', 'kwonly') and rng.random() < 0.6:
+            n = rng.choice({'Context': ['context', '__context'], 'Engine': ['engine', '__engine']}[ts])
+            if py['style'] == 'classfn':
+                n = n.lstrip('_')                           # no name mangling games
+            if n not in names and 'alias' not in p:
+                names.discard(p['name'])
+                names.add(n)
+                p['name'] = n
+                p['byname'] = True
+        if p['kind'] in ('pos', 'star') and not p.get('byname') and rng.random() < 0.12:
+            p['byindex'] = True
+        if p['kind'] in ('pos', 'kwonly') and not p.get('byname') and 'alias' not in p and rng.random() < 0.15:
+            n = p['name'][0] + '_' + p['name'][1:] if len(p['name']) > 1 and rng.random() < 0.6 else p['name'] + '_'
+            if n not in names:
+                names.discard(p['name'])
+                names.add(n)
+                p['name'] = n
+    if rng.random() < 0.06 and 'yaql_interface' not in names:
+        at = rng.randrange(len([p for p in o['params'] if p['kind'] == 'pos']) + 1)
+        seen_default = any('default' in p for p in o['params'][:at] if p['kind'] == 'pos')
+        hp = dict(name='yaql_interface', kind='pos', ty='YaqlInterface', byname=True)
+        if seen_default:
+            hp['default'] = ['none']
+        o['params'].insert(at, hp)
+    o['py'] = py
+    return o
 
 
 def value_for(rng, ty):
@@ -195,14 +281,14 @@ def gen_call(rng, layers, pc=None):
             if i < last:
                 args.append(['nv'])
             if m == 'kw':
-                kw.append([p.get('alias', p['name']), arg_for(rng, p.get('ty'), pc)])
+                kw.append([kwname(o, p), arg_for(rng, p.get('ty'), pc)])
     star = [p for p in o['params'] if p['kind'] == 'star']
     if (star and last == len(vis) - 1 and rng.random() < 0.7) or rng.random() < 0.04:
         for _ in range(rng.choice([1, 1, 2])):
             args.append(arg_for(rng, star[0].get('ty') if star else None, pc) if rng.random() < 0.9 else ['nv'])
     for p in o['params']:
         if p['kind'] == 'kwonly' and not is_hidden(p) and ('default' not in p or rng.random() < 0.5):
-            kw.append([p['name'], arg_for(rng, p.get('ty'), pc)])
+            kw.append([kwname(o, p), arg_for(rng, p.get('ty'), pc)])
     ss = [p for p in o['params'] if p['kind'] == 'starstar']
     if (ss and rng.random() < 0.7) or rng.random() < 0.03:
         kw.append([rng.choice(['zz', 'yy', 'a']), arg_for(rng, ss[0].get('ty') if ss else None, pc)])
@@ -258,60 +344,118 @@ def gen_pool(rng):
         o = gen_overload(rng, fid, arity, kindmix, nk, gen_type=gen_type if style == 'general' else lattice_type)
         if two_names and rng.random() < 0.4:
             o['fname'] = 'g'
+        if rng.random() < 0.5:
+            pyify(rng, o)
         defs[fid] = o
     return style, defs
 
 
 def gen_history(rng, max_ctx=7):
-    """-> dict(defs, steps): contexts are created, overloads registered (some exclusively, some twice, some in
-    several contexts) and deleted, and calls are made in between from old and new contexts"""
+    """-> dict(defs, steps): contexts are created (children, further roots, MultiContexts over existing contexts,
+    LinkedContexts), overloads registered (some exclusively, some twice; the SAME definition object / the same
+    Python callable in several contexts with different exclusive flags, in both orders) and deleted, and calls
+    are made in between from old and new contexts"""
     style, defs = gen_pool(rng)
     fids = sorted(defs)
     pc = ProbeCounter()
     steps = [['root']]
-    parent = [None]
+    kinds = ['plain']       # per handle: plain | multi | linked (child possible) | linked* (no child)
     for _ in range(rng.choice([0, 1, 1, 2, 2, 3])):
-        steps.append(['child', len(parent) - 1])
-        parent.append(len(parent) - 1)
-    placed = []             # (context, fid) pairs registered so far
+        steps.append(['child', len(kinds) - 1])
+        kinds.append('plain')
+    mixed = rng.random() < 0.4          # this history also builds multi / linked contexts and further roots
+    sharing = rng.random() < 0.45       # this history likes to put one definition into several contexts
+    placed = []             # (context, definition id) pairs registered so far
+    flags = {}              # definition id -> exclusive flags used so far
     calls = []              # call steps made so far
+    next_did = [1000]
+    covers = {}             # composite handle -> the handles it reads (members of a multi, target of a linked)
 
-    def fname(f):
-        return defs[f].get('fname', 'f')
+    def fname(d):
+        return defs[d if d < 1000 else dtag[d]].get('fname', 'f')
+    dtag = {}
 
     def a_call():
-        i = max(rng.randrange(len(parent)), rng.randrange(len(parent)))
+        # (not from a LinkedContext over a non-plain context: running ANY delegate there needs
+        # create_child_context, which such a context does not have - outside resolution, see notes/C05.md)
+        ok = [k for k in range(len(kinds)) if kinds[k] != 'linked*']
+        i = max(rng.choice(ok), rng.choice(ok))
         if calls and rng.random() < 0.4:
             old = rng.choice(calls)
             return ['call', i if rng.random() < 0.6 else old[1], old[2], old[3]]
-        known = sorted({f for _, f in placed}) if placed and rng.random() < 0.8 else fids
+        known = sorted({d if d < 1000 else dtag[d] for _, d in placed}) if placed and rng.random() < 0.8 else fids
         name = fname(rng.choice(known))
         fns = [defs[f] for f in known if fname(f) == name]
         return ['call', i, gen_call(rng, [dict(fns=fns)], pc), name]
 
+    def a_registration():
+        used = {d if d < 1000 else dtag[d] for _, d in placed}
+        fresh = [f for f in fids if f not in used]
+        again = placed and rng.random() < (0.55 if sharing else 0.15)
+        if again:
+            j, d = rng.choice(placed)
+            f = d if d < 1000 else dtag[d]
+            others = [k for k in range(len(kinds)) if k != j]
+            i = rng.choice(others) if others and rng.random() < 0.85 else j
+            seen = flags.get(f, [False])
+            x = (not seen[-1]) if rng.random() < 0.6 else rng.random() < 0.3   # mostly the OTHER flag than before
+        else:
+            f = rng.choice(fresh) if fresh and rng.random() < 0.85 else rng.choice(fids)
+            i = rng.randrange(len(kinds))
+            if covers and rng.random() < 0.4:       # into a context that a MultiContext / LinkedContext reads
+                i = rng.choice(rng.choice(list(covers.values())))
+            x = rng.random() < (0.3 if sharing else 0.15)
+        flags.setdefault(f, []).append(x)
+        via = (defs[f].get('py') or {}).get('via')
+        if via == 'callable' or (via is None and rng.random() < 0.1):
+            did = next_did[0]
+            next_did[0] += 1
+            dtag[did] = f
+            placed.append((i, did))
+            return ['regc', i, f, x, did]
+        placed.append((i, f))
+        return ['reg', i, f, x]
+
     for _ in range(rng.randrange(6, 16)):
         r = rng.random()
         if r < 0.42:
-            fresh = [f for f in fids if f not in {g for _, g in placed}]
-            f = rng.choice(fresh) if fresh and rng.random() < 0.85 else rng.choice(fids)
-            i = rng.randrange(len(parent))
-            steps.append(['reg', i, f, rng.random() < 0.15])
-            placed.append((i, f))
-        elif r < 0.82:
+            steps.append(a_registration())
+        elif r < 0.80:
             st = a_call()
             steps.append(st)
             calls.append(st)
         elif r < 0.91:
-            if len(parent) < max_ctx:
-                i = rng.randrange(len(parent))
-                steps.append(['child', i])
-                parent.append(i)
+            if len(kinds) >= max_ctx:
+                continue
+            r2 = rng.random()
+            if not mixed or r2 < 0.4:
+                cand = [i for i, k in enumerate(kinds) if k != 'linked*']
+                steps.append(['child', rng.choice(cand)])
+                kinds.append('plain')
+            elif r2 < 0.5:
+                steps.append(['root'])
+                kinds.append('plain')
+            elif r2 < 0.78:
+                ms = [rng.randrange(len(kinds)) for _ in range(rng.choice([1, 2, 2, 3]))]
+                steps.append(['multi', ms])
+                covers[len(kinds)] = list(ms)
+                kinds.append('multi')
+            else:
+                t = rng.randrange(len(kinds))
+                steps.append(['linked', rng.choice([None] + list(range(len(kinds)))), t])
+                covers[len(kinds)] = [t]
+                kinds.append('linked' if kinds[t] == 'plain' else 'linked*')
         else:
             if placed and rng.random() < 0.8:
-                i, f = rng.choice(placed)
+                i, d = rng.choice(placed)
+                through = [h for h, ms in covers.items() if i in ms]
+                if through and rng.random() < 0.5:
+                    i = rng.choice(through)         # delete THROUGH a MultiContext / LinkedContext that reads it
+                elif rng.random() < 0.25:
+                    i = rng.randrange(len(kinds))
             else:
-                i, f = rng.randrange(len(parent)), rng.choice(fids)
-            steps.append(['del', i, f])
+                i, d = rng.randrange(len(kinds)), rng.choice(fids)
+            steps.append(['del', i, d])
     for _ in range(rng.choice([1, 2])):
         steps.append(a_call())
     return dict(style=style, defs={str(k): v for k, v in defs.items()}, steps=steps)
